@@ -208,6 +208,10 @@ def check(prog, run):
                            "`%s` is the content of a StringValue and is used as a %s: an explicitly empty string/description "
                            "is treated like an absent one and is not printed, so the re-parsed tree differs" % (norm_stmt(o), how))
 
+    # ---- T1 typed attribute reads in the printer
+    from .. import typedrule
+    typedrule.run_rule(prog, run, "T1", "lang/printer.py", "printing a parsed tree must not raise", ["py_gql.lang.printer"], 60)
+
     # ---- P1 purity
     r = run.rule("P1", "no method of ASTPrinter or helper of printer.py writes module/class state or iterates a set", 30)
     for f in fns:
